@@ -42,6 +42,8 @@ def run(ctx):
     from . import c05
     c05.int_boundary(ctx.rule("R-INT-BOUNDARY", "parse_num_tail stores boundary magnitudes as the exact integer: "
                                                 "[-2^63, 2^64-1] stays an integer, beyond that a float"), lexpr)
+    # a printed float such as 1e-7 or 2.5e21 reaches the float constructor with the exponent it was written with (shared with C05)
+    c05.decimal_parts(ctx, lexpr)
     r4 = ctx.rule("R-CHAR-R6RS", "printable characters in #\\c syntax are read back as themselves (95 characters)")
     n = roundtrip.printable_chars(r4, lexpr, "r6rs")
     if n is not None:
